@@ -221,6 +221,34 @@ func (e *c01qEnv) runSeq(c c01qSeqCase) (key, what string, nontrivial bool) {
 					fmt.Sprintf("after step %d of %v: +2/3 reported for value %d, the distinct validators whose vote for it was delivered hold %d of %d", step, c.Ops, x, power(voted[x]), total), nontrivial
 			}
 		}
+		// the other direction of "backed by +2/3 precommits": whatever commit for A or B can be put together from the precommits
+		// the set holds (for-block slots for that block, nil slots as nil, everything else absent) verifies only if the
+		// distinct validators that precommitted that block hold more than two thirds
+		if typ == tmproto.PrecommitType {
+			for x := 1; x <= 2; x++ {
+				sigs := make([]CommitSig, n)
+				any := false
+				for i := 0; i < n; i++ {
+					sigs[i] = NewCommitSigAbsent()
+					v := set.GetByIndex(int32(i))
+					if v == nil {
+						continue
+					}
+					if v.BlockID.Equals(e.blocks[x-1]) || v.BlockID.IsZero() {
+						sigs[i] = v.CommitSig()
+						any = true
+					}
+				}
+				if !any {
+					continue
+				}
+				cm := NewCommit(3, 1, e.blocks[x-1], sigs)
+				if err, _ := c01qSafe(func() error { return vs.VerifyCommit("verif-c01q", e.blocks[x-1], 3, cm) }); err == nil && 3*power(voted[x]) <= 2*total {
+					return "types/validator_set.go:VerifyCommit:commit-assembled-from-the-sets-precommits-verifies-without-two-thirds-for-the-block",
+						fmt.Sprintf("after step %d of %v: a commit for value %d made of the set's for-block and nil precommits verifies; the validators that precommitted it hold %d of %d", step, c.Ops, x, power(voted[x]), total), nontrivial
+				}
+			}
+		}
 		if set.HasTwoThirdsAny() && 3*power(anyVoted) <= 2*total {
 			return "types/vote_set.go:HasTwoThirdsAny:without-two-thirds-of-distinct-voters", fmt.Sprintf("after step %d of %v: distinct voters hold %d of %d", step, c.Ops, power(anyVoted), total), nontrivial
 		}
